@@ -1,7 +1,7 @@
 /* Schema compiler harness (C08, C07, C20, C06): compile a schema through the library interface and dump what the
  * compiler decided, read back from the binary schema it generates with the repo's reflection reader.
  *   compile <optbits> <hex of schema text>
- *     optbits: 1 allow_boolean_conversion, 2 strict_enum_init, 4 ascending_enum, 8 bgen_qualify_names
+ *     optbits (0 = the library defaults): 1 allow_boolean_conversion off, 2 toggle strict_enum_init, 4 toggle ascending_enum, 8 toggle bgen_qualify_names
  *   output: "fail diag=<n>"  |  "ok diag=<n> size=<bfbs bytes> | O <name> <is_struct> <minalign> <bytesize> : <field>;<field>... | E <name> <utype> <is_union> : <name>=<value>,..."
  *     field = name,id,offset,base_type,element,index,fixed_length,default_integer,default_real_bits,deprecated,required,key,optional
  */
@@ -10,8 +10,10 @@
 #include "flatcc/reflection/reflection_reader.h"
 #include "flatcc/reflection/reflection_verifier.h"
 
-static int ndiag;
-static void on_error(void *ctx, const char *buf, size_t len) { (void)ctx; (void)buf; (void)len; ++ndiag; }
+static int ndiag; static char first_err[160];
+static void on_error(void *ctx, const char *buf, size_t len) { (void)ctx;
+    if (!ndiag) { size_t i, n = len < sizeof(first_err) - 1 ? len : sizeof(first_err) - 1; for (i = 0; i < n; ++i) first_err[i] = buf[i] == '\n' || buf[i] == ' ' ? '_' : buf[i]; first_err[n] = 0; }
+    ++ndiag; }
 
 static void dump(const void *bfbs)
 {
@@ -46,13 +48,17 @@ int main(void)
             flatcc_options_t opts; flatcc_context_t ctx; int ret; void *bfbs; size_t bsize = 0;
             h_unhex(tok[2], (uint8_t *)src); src[len] = 0;
             flatcc_init_options(&opts);
-            opts.allow_boolean_conversion = (ob & 1) != 0; opts.strict_enum_init = (ob & 2) != 0; opts.ascending_enum = (ob & 4) != 0;
-            opts.bgen_qualify_names = (ob & 8) != 0; opts.bgen_bfbs = 1;
+            /* defaults as flatcc_init_options sets them (the CLI's configuration) unless a bit asks otherwise */
+            if (ob & 1) opts.allow_boolean_conversion = 0;
+            if (ob & 2) opts.strict_enum_init = !opts.strict_enum_init;
+            if (ob & 4) opts.ascending_enum = !opts.ascending_enum;
+            if (ob & 8) opts.bgen_qualify_names = !opts.bgen_qualify_names;
+            opts.bgen_bfbs = 1;
             ndiag = 0;
             ctx = flatcc_create_context(&opts, "h_schema", on_error, 0);
             if (!ctx) { printf("no-context\n"); free(src); continue; }
             ret = flatcc_parse_buffer(ctx, src, len);
-            if (ret) { printf("fail diag=%d\n", ndiag); }
+            if (ret) { printf("fail diag=%d %s\n", ndiag, first_err); }
             else {
                 bfbs = flatcc_generate_binary_schema(ctx, &bsize);
                 if (!bfbs) printf("ok diag=%d nobfbs\n", ndiag);
